@@ -333,3 +333,173 @@ Proof.
   - specialize (Hinv o' Ho' id Hid). lia.
   - subst o'. apply ctor_cores in E. unfold storages in Hid. rewrite E, fresh_snd in Hid. apply in_seq in Hid. lia.
 Qed.
+
+(* ---- reduce_dims at shape level: the surviving cores always chain (discharges the side condition reduce_ok) ---- *)
+Definition curr (racc : list cshape) : nat := match racc with c :: _ => cs_right c | [] => 1 end.
+Definition kindb (b : bool) (l : list cshape) : bool := forallb (fun c => Bool.eqb (is4 c) b) l.
+Fixpoint endr (r : nat) (l : list cshape) : nat := match l with [] => r | c :: t => endr (cs_right c) t end.
+
+Lemma last_default (l : list nat) : forall d d', l <> [] -> last l d = last l d'.
+Proof. induction l as [|a [|b t] IH]; intros d d' H; [congruence|reflexivity|]. apply (IH d d'). discriminate. Qed.
+Lemma endr_last l : forall r, endr r l = last (map cs_right l) r.
+Proof.
+  induction l as [|a t IH]; intros r; [reflexivity|]. cbn [endr map]. rewrite IH.
+  destruct t as [|b t']; [reflexivity|].
+  change (last (cs_right a :: map cs_right (b :: t')) r) with (last (map cs_right (b :: t')) r).
+  apply last_default. discriminate.
+Qed.
+Lemma endr_snoc l : forall r c, endr r (l ++ [c]) = cs_right c.
+Proof. induction l as [|a t IH]; intros r c; simpl; auto. Qed.
+Lemma chain_ok_snoc l : forall r c, chain_ok r (l ++ [c]) = chain_ok r l && Nat.eqb (cs_left c) (endr r l).
+Proof.
+  induction l as [|a l IH]; intros r c; simpl.
+  - rewrite andb_true_r. reflexivity.
+  - rewrite IH. rewrite andb_assoc. reflexivity.
+Qed.
+Lemma endr_rev racc : endr 1 (rev racc) = curr racc.
+Proof. destruct racc as [|c t]; [reflexivity|]. simpl. apply endr_snoc. Qed.
+Lemma kindb_app b l1 l2 : kindb b (l1 ++ l2) = kindb b l1 && kindb b l2.
+Proof. unfold kindb. apply forallb_app. Qed.
+Lemma kindb_rev b l : kindb b (rev l) = kindb b l.
+Proof.
+  induction l; simpl; [reflexivity|]. rewrite kindb_app. simpl. rewrite IHl, andb_true_r. apply andb_comm.
+Qed.
+Lemma endr_nonempty r r' l : l <> [] -> endr r l = endr r' l.
+Proof. destruct l; [congruence|reflexivity]. Qed.
+
+Definition with_left (l : nat) (c : cshape) : cshape := match c with C3 _ n b => C3 l n b | C4 _ m n b => C4 l m n b end.
+Definition with_right (r : nat) (c : cshape) : cshape := match c with C3 a n _ => C3 a n r | C4 a m n _ => C4 a m n r end.
+Lemma with_left_props l c : cs_left (with_left l c) = l /\ cs_right (with_left l c) = cs_right c /\ is4 (with_left l c) = is4 c.
+Proof. destruct c; repeat split. Qed.
+Lemma with_right_props r c : cs_left (with_right r c) = cs_left c /\ cs_right (with_right r c) = r /\ is4 (with_right r c) = is4 c.
+Proof. destruct c; repeat split. Qed.
+
+Lemma rd_sh_unfold i c0 cs carry racc excl :
+  rd_sh i (c0 :: cs) carry racc excl =
+  let c := match carry with Some l => with_left l c0 | None => c0 end in
+  if removable i c excl then
+    if (cs_right c <? cs_left c) || (match cs with [] => true | _ => false end) then
+      match racc with
+      | l :: racc' => rd_sh (S i) cs None (with_right (cs_right c) l :: racc') excl
+      | [] => match cs with [] => [c] | _ => rd_sh (S i) cs (Some (cs_left c)) [] excl end
+      end
+    else rd_sh (S i) cs (Some (cs_left c)) racc excl
+  else rd_sh (S i) cs None (c :: racc) excl.
+Proof.
+  cbn [rd_sh]. destruct carry as [l|]; destruct c0; cbn zeta; cbn [with_left];
+    repeat match goal with |- context [if ?b then _ else _] => destruct b end; try reflexivity;
+    destruct racc as [|[] ?]; reflexivity.
+Qed.
+
+Lemma rd_sh_inv (rest : list cshape) : forall i carry racc excl b,
+  kindb b rest = true -> kindb b racc = true -> chain_ok 1 (rev racc) = true ->
+  match rest with
+  | [] => carry = None /\ curr racc = 1 /\ racc <> []
+  | c0 :: _ => chain_ok (cs_left c0) rest = true /\ endr 0 rest = 1 /\
+               (match carry with Some l => l | None => cs_left c0 end) = curr racc
+  end ->
+  let r := rd_sh i rest carry racc excl in
+  r <> [] /\ kindb b r = true /\ chain_ok 1 r = true /\ endr 1 r = 1.
+Proof.
+  induction rest as [|c0 cs IH]; intros i carry racc excl b Hk Hka Hch Hinv.
+  - destruct Hinv as [_ [Hc Hne]]. cbn [rd_sh]. cbn zeta. repeat split.
+    + intros E. apply Hne. destruct racc; [reflexivity|]. simpl in E. destruct (rev racc); discriminate.
+    + rewrite kindb_rev. assumption.
+    + assumption.
+    + rewrite endr_rev. assumption.
+  - destruct Hinv as [Hc0 [Hend He]]. cbn zeta. rewrite rd_sh_unfold. cbn zeta.
+    set (c := match carry with Some l => with_left l c0 | None => c0 end).
+    assert (Hcl : cs_left c = curr racc).
+    { unfold c. destruct carry as [l|]; [destruct (with_left_props l c0) as [H _]; rewrite H|]; exact He. }
+    assert (Hcr : cs_right c = cs_right c0) by (unfold c; destruct carry as [l|]; [apply with_left_props|reflexivity]).
+    assert (Hc4 : is4 c = is4 c0) by (unfold c; destruct carry as [l|]; [apply with_left_props|reflexivity]).
+    simpl in Hk. apply andb_true_iff in Hk. destruct Hk as [Hk0 Hkcs].
+    simpl in Hc0. apply andb_true_iff in Hc0. destruct Hc0 as [_ Hccs].
+    (* facts about the tail of the input *)
+    assert (Htail : match cs with
+                    | [] => cs_right c0 = 1
+                    | c1 :: _ => chain_ok (cs_left c1) cs = true /\ endr 0 cs = 1 /\ cs_left c1 = cs_right c0 end).
+    { destruct cs as [|c1 cs'].
+      - simpl in Hend. exact Hend.
+      - simpl in Hccs. apply andb_true_iff in Hccs. destruct Hccs as [H1 H2]. apply Nat.eqb_eq in H1.
+        repeat split.
+        + simpl. rewrite Nat.eqb_refl. exact H2.
+        + exact Hend.
+        + exact H1. }
+    destruct (removable i c excl).
+    + destruct ((cs_right c <? cs_left c) || match cs with [] => true | _ :: _ => false end) eqn:Eleft.
+      * destruct racc as [|l racc'].
+        -- destruct cs as [|c1 cs'].
+           ++ (* everything absorbed: a single core *)
+              simpl in Hcl. repeat split; try discriminate.
+              ** simpl. rewrite Hc4, Hk0. reflexivity.
+              ** simpl. rewrite Hcl. reflexivity.
+              ** simpl. rewrite Hcr. exact Htail.
+           ++ destruct Htail as [T1 [T2 T3]].
+              apply (IH (S i) (Some (cs_left c)) [] excl b); auto.
+        -- (* absorbed into the core on the left *)
+           destruct (with_right_props (cs_right c) l) as [W1 [W2 W3]].
+           simpl in Hka. apply andb_true_iff in Hka. destruct Hka as [Hl4 Hka'].
+           assert (Hch' : chain_ok 1 (rev (with_right (cs_right c) l :: racc')) = true).
+           { simpl in Hch |- *. rewrite chain_ok_snoc in Hch |- *. rewrite W1. exact Hch. }
+           assert (Hk' : kindb b (with_right (cs_right c) l :: racc') = true) by (simpl; rewrite W3, Hl4; exact Hka').
+           apply (IH (S i) None (with_right (cs_right c) l :: racc') excl b); auto.
+           destruct cs as [|c1 cs'].
+           ++ repeat split; try discriminate. simpl. rewrite W2, Hcr. exact Htail.
+           ++ destruct Htail as [T1 [T2 T3]]. repeat split; auto. simpl. rewrite W2, Hcr. exact T3.
+      * (* carried to the right *)
+        apply orb_false_iff in Eleft. destruct Eleft as [_ Enil]. destruct cs as [|c1 cs']; [discriminate|].
+        destruct Htail as [T1 [T2 T3]].
+        apply (IH (S i) (Some (cs_left c)) racc excl b); auto.
+    + (* kept *)
+      assert (Hch' : chain_ok 1 (rev (c :: racc)) = true).
+      { simpl. rewrite chain_ok_snoc, Hch, endr_rev, Hcl, Nat.eqb_refl. reflexivity. }
+      assert (Hk' : kindb b (c :: racc) = true) by (simpl; rewrite Hc4, Hk0; exact Hka).
+      apply (IH (S i) None (c :: racc) excl b); auto.
+      destruct cs as [|c1 cs'].
+      * repeat split; try discriminate. simpl. rewrite Hcr. exact Htail.
+      * destruct Htail as [T1 [T2 T3]]. repeat split; auto. simpl. rewrite Hcr. exact T3.
+Qed.
+
+(* for every well formed object and every exclusion list the surviving core shapes are well formed *)
+Theorem rd_sh_wf (x : obj) excl : wf_obj x = true -> wf_sh (fttm x) (rd_sh 0 (shapes x) None [] excl) = true.
+Proof.
+  intros Hw. apply wf_obj_alt in Hw. cbn zeta in Hw. destruct Hw as [Hne [H1 [H2 [H3 [H4 _]]]]].
+  unfold shapes. set (sh := map fst (ocores x)) in *.
+  destruct sh as [|c0 sh'] eqn:E; [congruence|]. cbn [hd] in H4.
+  assert (Hkind : kindb (is4 c0) (c0 :: sh') = true).
+  { unfold kindb. apply forallb_forall. intros c Hc. apply orb_true_iff in H1. destruct H1 as [H1|H1]; rewrite forallb_forall in H1.
+    - rewrite (H1 c Hc), (H1 c0 (or_introl eq_refl)). reflexivity.
+    - pose proof (H1 c Hc) as Hx. pose proof (H1 c0 (or_introl eq_refl)) as Hy.
+      apply negb_true_iff in Hx, Hy. rewrite Hx, Hy. reflexivity. }
+  assert (Hl : cs_left c0 = 1) by (eapply chain_ok_first; eassumption).
+  pose proof (rd_sh_inv (c0 :: sh') 0 None [] excl (is4 c0) Hkind eq_refl eq_refl) as Hinv.
+  assert (Hpre : chain_ok (cs_left c0) (c0 :: sh') = true /\ endr 0 (c0 :: sh') = 1 /\ cs_left c0 = curr []).
+  { rewrite Hl. repeat split; [exact H2|rewrite endr_last; exact H3]. }
+  specialize (Hinv Hpre). cbn zeta in Hinv.
+  destruct Hinv as [R1 [R2 [R3 R4]]].
+  unfold wf_sh. destruct (rd_sh 0 (c0 :: sh') None [] excl) as [|r0 rt] eqn:Er; [congruence|].
+  rewrite R3. rewrite (endr_nonempty 1 0) in R4 by discriminate. rewrite endr_last in R4. rewrite R4.
+  rewrite H4.
+  assert (Hr0 : is4 r0 = is4 c0) by (simpl in R2; apply andb_true_iff in R2; destruct R2 as [Ha _]; apply Bool.eqb_prop; exact Ha).
+  rewrite Hr0, Bool.eqb_reflx.
+  assert (Hu : forallb is4 (r0 :: rt) || forallb (fun c => negb (is4 c)) (r0 :: rt) = true).
+  { unfold kindb in R2. destruct (is4 c0).
+    - apply orb_true_iff. left. rewrite forallb_forall in R2 |- *. intros c Hc. specialize (R2 c Hc). apply Bool.eqb_prop in R2. exact R2.
+    - apply orb_true_iff. right. rewrite forallb_forall in R2 |- *. intros c Hc. specialize (R2 c Hc). apply Bool.eqb_prop in R2. rewrite R2. reflexivity. }
+  rewrite Hu. reflexivity.
+Qed.
+
+(* hence: no side condition *)
+Theorem step_wf_all st c : WFpool st -> WFpool (step st c).
+Proof.
+  intros H. apply step_wf; [assumption|]. destruct c; try reflexivity. cbn [reduce_ok].
+  destruct (nth_error (pool st) i) as [x|] eqn:E; [|reflexivity].
+  apply rd_sh_wf. unfold WFpool in H. rewrite Forall_forall in H. apply H. eapply nth_error_In. eassumption.
+Qed.
+Theorem reachable_wf_all cs : WFpool (run init cs).
+Proof.
+  assert (H : forall cs st, WFpool st -> WFpool (run st cs)).
+  { induction cs0 as [|c t IH]; intros st Hs; [assumption|]. cbn [run fold_left]. apply IH. apply step_wf_all. assumption. }
+  apply H. constructor.
+Qed.
